@@ -85,6 +85,8 @@ type Ctx struct {
 	// SigTag, when set, is appended to every signature ("sig@tag"): used by sub-workloads whose known findings
 	// must not mask the same signature in the main workloads.
 	SigTag string
+	// tagEntry, when set, is put in front of the entry name of journalled cases and violations (replay decodes it).
+	tagEntry string
 }
 
 func NewCtx(prop, tier string, seed uint64, shard, nshards int, repo string) *Ctx {
@@ -144,6 +146,7 @@ func (c *Ctx) OpenJournal(path string) error {
 
 // Journal records the case about to be executed.
 func (c *Ctx) Journal(entry, input string) {
+	entry = c.tagEntry + entry
 	c.caseNo++
 	if c.journal == nil {
 		return
@@ -236,6 +239,7 @@ func (c *Ctx) Violate(sig, entry, input, detail string) {
 	if c.SigTag != "" {
 		sig += "@" + c.SigTag
 	}
+	entry = c.tagEntry + entry
 	key := sig
 	if i, ok := c.violIdx[key]; ok {
 		v := &c.Res.Violations[i]
